@@ -964,6 +964,26 @@ def _session_views(spec):
     env = Env()
     k, r = len(lines), len(lines[0])
     block = np.array([[build(c, env) for c in line] for line in lines], dtype=dtype)            # (k, r): one line per row
+    if kind == 'arr_strides':
+        # views that START at the same byte of one buffer, with the same dtype and shape, and walk it in different strides: a[:m] against a[::2][:m],
+        # a square block against its transpose; equal only if the cells they show are equal
+        flat = np.ascontiguousarray(block).reshape(-1)
+        m = max(1, len(flat) // 2)
+        n = min(block.shape)
+        sq = np.ascontiguousarray(block[:n, :n])
+        pairs = [(flat[:m], flat[::2][:m], 'a[:%i] and a[::2][:%i] of one array' % (m, m)), (sq, sq.T, 'a square block and its transpose'),
+                 (flat[:m], flat[:m][::-1][::-1], 'a[:%i] and a[:%i] reversed twice' % (m, m))]
+        cls = set(['views_cut_from_one_base', 'kind=' + kind])
+        for a, b, what in pairs:
+            same_cells = a.shape == b.shape and all(x == y or (x != x and y != y) for x, y in zip(a.reshape(-1).tolist(), b.reshape(-1).tolist()))
+            got = _eq('%s: %s, %s' % (what, short(a, 100), short(b, 100)), a, b)
+            back = _eq('the same two in reverse order', b, a)
+            check(got == back, 'eq is not symmetric on %s: %s vs %s: %s / %s', what, a, b, got, back)
+            check(got == same_cells, 'eq is %s for %s although their cells %s: %s vs %s', got, what, 'are the same' if same_cells else 'differ', a, b)
+            cls.add('views_equal' if same_cells else 'views_unequal')
+            if a.__array_interface__['data'][0] == b.__array_interface__['data'][0] and a.strides != b.strides and a.shape == b.shape:
+                cls.add('views_same_start_other_strides:' + ('equal' if same_cells else 'unequal'))
+        return sorted(cls)
     if kind == 'arr_rows':
         cut = [block[i] for i in range(k)] + [block[0]]
     elif kind == 'arr_cols':
@@ -1011,7 +1031,7 @@ def run_session(spec):
 
 @st.composite
 def _views(draw):
-    kind = draw(st.sampled_from(['arr_rows', 'arr_cols', 'arr_cols', 'df_cols', 'df_cols', 'df_rows']))
+    kind = draw(st.sampled_from(['arr_rows', 'arr_cols', 'arr_cols', 'df_cols', 'df_cols', 'df_rows', 'arr_strides', 'arr_strides']))
     dtype = draw(st.sampled_from(['float64', 'float64', 'int64']))
     k, r = draw(st.integers(2, 3)), draw(st.integers(1, 3))
     cell = st.integers(0, 2) if dtype == 'int64' else st.one_of(st.sampled_from([0.0, 1.0, 2.5]), _nan)
@@ -1122,7 +1142,7 @@ SUBS = [
                                  'changed_in_place_top': 0.025, 'changed_in_place_at_depth': 0.025, 'member_replaced_in_place': 0.1,
                                  'operands_share_member_objects': 0.025, 'operands_share_container_members': 0.01, 'operand_is_view_of_other': 0.02,              # class 14
                                  'operands_share_index_object': 0.002, 'one_object_twice_in_operand': 0.025,
-                                 'views_cut_from_one_base': 0.04, 'views_equal': 0.04, 'views_unequal': 0.015}),
+                                 'views_cut_from_one_base': 0.04, 'views_equal': 0.04, 'views_unequal': 0.015, 'views_same_start_other_strides:unequal': 0.006, 'views_same_start_other_strides:equal': 0.003}),
     EnumSub('pool_cube', enum_pool, run_pool, thorough_only=False, chunks=1,
             rule='the full %i x %i eq matrix of a fixed pool against structural copies, then every triple for transitivity (%i triples) - exhaustive' % (len(POOL), len(POOL), len(POOL) ** 3)),
 ]
